@@ -19,6 +19,7 @@ func init() {
 		c02CandidateIsolation(c)
 		c03ConstructionWiring(c, "C02.6b") // the transport's packet event reaches onPacket
 		c02Jsonp(c)
+		c10BoundedBody(c, "C02.9")                                                     // the whole body below the limit reaches OnData: the read limit is MaxHttpBufferSize() itself, not a smaller or unrelated quantity
 		c03AdmittedStates(c, "C02.1b", map[string]bool{"onPacket/emit(packet)": true}) // delivered whenever (and only when) open
 		// WebTransport frames: the kind and the bytes of an inbound message come from the framing layer
 		c13KindBit(c)               // C02.8a = C13.3: kind bit read as written
